@@ -86,17 +86,18 @@ Proof. exact C02.rule_refines_simple. Qed.
 Check rule_refines_simple.
 Print Assumptions rule_refines_simple.
 
-(* the known deviation D27 is real: `str(f): null` on a document without the field *)
-Example refuted_D27 :
+(* D27 as repaired (fix: commit 660fd50): `str(f): null` on a document without the field is
+   missing, as the reference says; before the repair the engine said false *)
+Example fixed_D27 :
   let o0 := {| re_valid := fun _ _ => true; re_match := fun _ _ _ => false; f64_parse := fun _ => None;
                f64_show := fun _ => []; uni_alnum := fun _ => false; uni_num := fun _ => false |} in
   let k := [115; 116; 114; 40; 102; 41]%N in     (* str(f) *)
   exists e, parse_entry o0 false (YStr k) YNull None [] = Ok e /\
-            solve_body o0 e (pure_doc (fun _ => None)) = Ok F /\
+            solve_body o0 e (pure_doc (fun _ => None)) = Ok M /\
             sem_entry_scalar o0 false KStr [102%N] YNull (fun _ => None) = M.
-Proof. exact C02.refuted_D27. Qed.
-Check refuted_D27.
-Print Assumptions refuted_D27.
+Proof. exact C02.fixed_D27. Qed.
+Check fixed_D27.
+Print Assumptions fixed_D27.
 
 (* the unrestricted entry statement is false (D30: str(k) against an integer above i64) *)
 Theorem entry_refines_unrestricted_refuted : ~ entry_refines_stmt.
